@@ -289,7 +289,7 @@ def check(ctx):
     # ------------------------------------------------------------------ R01.10 'carrying exactly the payload that was sent': what is published is the caller's slot, and a
     # slot is not handed to the next producer while the previous payload's destructor still runs over it (shared with C08 R08.3 and C13 R13.1)
     sub = util.fresh_ctx(ctx, "C08")
-    importlib.import_module("props.C08").check(sub)
+    util.guarded(ctx, importlib.import_module("props.C08").check, sub)
     for o in sub.obs:
         if o["rule"] == "R08.3" and "candidate-id-is-rebuilt" in o["key"]:
             ctx.ob("R01.10", o["key"], o["ok"], o["site"], o["detail"], o["nontrivial"])
@@ -298,8 +298,8 @@ def check(ctx):
         def ob(self, rule, key, ok, site="", detail="", nontrivial=True, undecided=False):
             if rule == "R13.1" and "dealloc_id" in key: return super().ob(rule, key, ok, site, detail, nontrivial, undecided)
             return ok
-    C13.check(OnlyDealloc(ctx, "R01.10"))
-    ctx.floor("R01.10", 4)
+    util.guarded(ctx, C13.check, OnlyDealloc(ctx, "R01.10"))
+    if not getattr(ctx, "deferred_infra", None): ctx.floor("R01.10", 4)
     ctx.floor("R01.1", 20); ctx.floor("R01.2", 25); ctx.floor("R01.3", 12); ctx.floor("R01.4", 10); ctx.floor("R01.5", 30)
 
 
